@@ -509,6 +509,22 @@ theorem reader_loop_is_fetcher (cfg : RCfg) (items : List Item) (nb : Int) (hnb 
   rw [List.getElem?_append_left hlt]
   exact hk
 
+/-- `reader_no_starvation` (the defects D3, D4/D14, D15 of the pinned code were all of this kind: the loop alive, fetching,
+and never getting past a point of the log): after **any** history, whenever the loop holds a connection, `k` fault-free
+rounds (backoff sleep, fetch — any byte budgets, deadline passed or not, high watermark above the log) with `k` at least
+the number of stored batches / messages (in particular `k ≥ |items|`) leave every stored record from the start offset
+on pushed into `r.msgs`. -/
+theorem reader_no_starvation (cfg : RCfg) (items : List Item) (nb : Int) (hnb : 0 ≤ nb) (hwf : LWF nb items) (hwm : Int)
+    (hh : ∀ it ∈ items, it.last < hwm) (o0 : Int) (ho : -2 ≤ o0) (xs : List Env) (hx : ∀ x ∈ xs, x.ok items)
+    (hr : (worldRun cfg items { offset := o0 } xs).phase = .reading) (moves : List (Nat × Bool))
+    (hk : items.length ≤ moves.length) :
+    let s := worldRun cfg items (worldRun cfg items { offset := o0 } xs)
+      (moves.flatMap fun m => [Env.sleepOk, Env.fetch m.1 hwm m.2])
+    ∃ st, s.start = some st ∧ ∀ r ∈ allRecords items, st ≤ r.1 → r ∈ s.msgs := by
+  have h := rinv_world_run cfg items nb hnb hwf xs _ (rinv_init (allRecords items) o0 ho) hx
+  exact catch_up cfg items nb hnb hwf hwm hh moves _ h
+    (Or.inr ⟨hr, Nat.le_trans (dropBefore_length_le _ items) hk⟩)
+
 /-- a run with a connection lost in the middle of a compressed batch and a re-initialisation -/
 example : (worldRun {} [.b2 3 4 false 24 [(0, 1, 12), (1, 2, 12)], .b2 5 9 true 30 [(0, 3, 20), (4, 4, 20)]] { offset := -2 }
     [.initOk 3 10, .sleepOk, .fetch 10 10 false, .sleepOk, .lost 70 10 false, .sleepOk, .initOk 3 10, .sleepOk,
